@@ -92,7 +92,7 @@ def _strategy(h, name):
 
 
 for _name in TABLE:
-    contract('C08/strategy/%s' % _name, ['C08'], S + '::' + _name, loops=_specs(_name), native=False)(
+    contract('C08/strategy/%s' % _name, ['C08', 'C01'], S + '::' + _name, loops=_specs(_name), native=False)(
         lambda h, n=_name: _strategy(h, n))
 
 
